@@ -79,3 +79,138 @@ Proof.
   destruct n as [|c n]; [discriminate|]. simpl in H. apply Ascii.eqb_eq in H. subst c.
   destruct n as [|c' n']; reflexivity.
 Qed.
+
+(* ======================= Round 12 ======================================================================= *)
+From LV Require Import Gen.ShapeHoles Shape.GenTie Shape.GenTie_proofs Shape.Lookup Shape.Lookup_proofs
+  Shape.VArgs Shape.VArgs_proofs Shape.InPlaceDag Shape.InPlaceDag_proofs.
+
+(* The conditions of the traversal models are the ones REGENERATED from lark/visitors.py and
+   lark/parser_frontends.py on this run (coq/Gen/ShapeHoles.v; the bodies of _call_userfunc, _call_userfunc_token,
+   _transform_children, _transform_tree, transform of the four classes, iter_subtrees, _get_lexer_callbacks,
+   apply_visit_wrapper, inplace_transformer, the _vargs_* adapters and merge_transformers are pinned by fail-closed
+   templates in translator/gen_shape.py): a token child goes through its terminal callback iff
+   `self.__visit_tokens__ and isinstance(c, Token)` (both loops), the embedded parser installs terminal callbacks
+   iff the same flag is on, tree children go through _transform_tree, non-Discard results are kept. *)
+Theorem C16_conditions_are_source T vt ty v :
+  visit_tok T vt ty v = visit_tok_g T vt ty v /\ visit_tok T vt ty v = visit_tok_nr_g T vt ty v /\
+  visit_tok T vt ty v = embedded_tok_g T vt ty v /\
+  g_child_is_tree true = true /\ g_child_is_tree false = false /\ g_keep_result false = true.
+Proof.
+  exact (conj (proj1 (visit_tok_is_source T vt ty v))
+        (conj (proj1 (proj2 (visit_tok_is_source T vt ty v)))
+        (conj (proj2 (proj2 (visit_tok_is_source T vt ty v))) children_branches_are_source))).
+Qed.
+Print Assumptions C16_conditions_are_source.
+
+(* A transformer OBJECT with a history (Shape/Lookup.v: it transformed trees, was copied, had attributes set or
+   deleted, had other transformers merged in): what the four classes return is the reference value for the attribute
+   state the object has NOW - the history with all uses and copies dropped.  (_call_userfunc does a getattr at every
+   call; a per-object memo of the lookups is a broken regeneration tie.) *)
+Theorem C16_lookup_is_current_state T hs (visit_tokens : bool) n ch :
+  let Tnow := after T (filter (fun h => negb (is_use h)) hs) in
+  let t := Tr n ch in
+  exists l1 l2 l3 l4,
+    transform_rec (after T hs) visit_tokens t = (tr Tnow visit_tokens t, l1) /\
+    transform_nr (after T hs) visit_tokens t = Some (tr Tnow visit_tokens t, l2) /\
+    transform_ip (after T hs) visit_tokens t = Some (tr Tnow visit_tokens t, l3) /\
+    transform_ipr (after T hs) visit_tokens t = (tr Tnow visit_tokens t, l4).
+Proof. exact (lookup_is_current_state T hs visit_tokens n ch). Qed.
+Print Assumptions C16_lookup_is_current_state.
+
+Theorem C16_embedded_is_current_state T hs (visit_tokens : bool) mp d :
+  let Tnow := after T (filter (fun h => negb (is_use h)) hs) in
+  (forall n, starts_us n = true -> on_rule Tnow n = None) ->
+  wf_dtree mp d = true ->
+  embedded (after T hs) visit_tokens mp d = option_map (tr Tnow visit_tokens) (shape mp d).
+Proof. exact (embedded_is_current_state T hs visit_tokens mp d). Qed.
+Print Assumptions C16_embedded_is_current_state.
+
+(* the contrasting model with memoised lookups violates it (stale negative entry; stale bound callback in a copy) *)
+Theorem C16_memo_lookup_refuted :
+  fst (mtr true (mafter ex_T0 ex_hist) (Tr "b" [])) <> tr (after ex_T0 ex_hist) true (Tr "b" []) /\
+  fst (mtr true (mafter ex_T0 ex_hist2) (Tr "b" [])) <> tr (after ex_T0 ex_hist2) true (Tr "b" []).
+Proof.
+  exact (conj (fun H => let '(conj A B) := memo_lookup_refuted in
+                        eq_ind (VTree "b" []) (fun v => match v with VTree _ _ => True | _ => False end) I _
+                               (eq_trans (eq_sym A) (eq_trans H B)))
+              (fun H => let '(conj A B) := memo_copy_refuted in
+                        eq_ind (VUser "b@x" []) (fun v => match v with VUser (String "b" (String "@" (String "x" _))) _ => True | _ => False end) I _
+                               (eq_trans (eq_sym A) (eq_trans H B)))).
+Qed.
+Print Assumptions C16_memo_lookup_refuted.
+
+(* merge_transformers(base, prefix=sub) (Shape/GenTie.merge_T over the regenerated skip test): callbacks on
+   underscore names cannot appear through a non-underscore prefix, so embedded = post-hoc holds for the merged object *)
+Theorem C16_merge_embedded_eq_posthoc base sub prefix (visit_tokens : bool) mp d :
+  prefix <> "" -> starts_us prefix = false ->
+  (forall n, starts_us n = true -> on_rule base n = None) ->
+  wf_dtree mp d = true ->
+  embedded (merge_T base sub prefix) visit_tokens mp d
+  = option_map (tr (merge_T base sub prefix) visit_tokens) (shape mp d).
+Proof.
+  exact (fun Hne Hp Hb => embedded_eq_posthoc (merge_T base sub prefix) visit_tokens
+           (merged_lookup_no_us (on_rule base) (on_rule sub) prefix Hne Hp Hb) mp d).
+Qed.
+Print Assumptions C16_merge_embedded_eq_posthoc.
+
+(* v_args wrappers as argument adapters (Shape/VArgs.v).  One call: what create_callback's wrapping
+   (apply_visit_wrapper(f, name, wrapper)(children) = wrapper(f, name, children, None)) returns is what
+   Transformer._call_userfunc returns on a node of that name, whatever the node's meta - for inline, tree, custom
+   wrappers and undecorated callbacks that do not look at the meta.  Whole derivations: building with the wrapped
+   callbacks = transforming the shaped tree afterwards. *)
+Theorem C16_vargs_call_agree c name ch m : meta_free c -> embedded_call c name ch = Some (posthoc_call c name ch m).
+Proof. exact (vargs_call_agree c name ch m). Qed.
+Print Assumptions C16_vargs_call_agree.
+
+Theorem C16_vargs_embedded_eq_posthoc tbl toks (visit_tokens : bool) mp d :
+  (forall n c, tbl n = Some c -> meta_free c) ->
+  (forall n, starts_us n = true -> tbl n = None) ->
+  wf_dtree mp d = true ->
+  eval value VNone vkids (emb_user tbl) VTree (visit_tok (vargs_T tbl toks) visit_tokens) mp d
+  = option_map (tr (vargs_T tbl toks) visit_tokens) (shape mp d).
+Proof. exact (fun Hf => vargs_embedded_eq_posthoc tbl toks Hf visit_tokens mp d). Qed.
+Print Assumptions C16_vargs_embedded_eq_posthoc.
+
+(* the documented exception (meta wrappers are refused by the embedded path) and finding F27 (an embedded
+   Transformer_InPlace hands an undecorated callback a Tree named after the function instead of the children) *)
+Theorem C16_embedded_meta_refused_inplace_refuted f name ch :
+  embedded_call (mkU f (Some VMeta)) name ch = None /\ embedded_call (mkU f (Some VMetaInline)) name ch = None /\
+  embedded_call_inplace (mkU f27_f None) "a" "a" [] = Some (VUser "tree" []) /\
+  posthoc_call (mkU f27_f None) "a" [] MNone = VUser "list" [].
+Proof. exact (conj (proj1 (embedded_meta_refused f name ch)) (conj (proj2 (embedded_meta_refused f name ch)) embedded_inplace_refuted)). Qed.
+Print Assumptions C16_embedded_meta_refused_inplace_refuted.
+
+(* Transformer_InPlace on a heap of Tree objects with identity (Shape/InPlaceDag.v; iter_subtrees as coded).  On
+   the DAG start[a[sh], sh] it differs from the documented value (finding F31 at model level), while
+   Transformer_InPlaceRecursive on the same heap gives the value of the DAG read as a tree. *)
+Theorem C16_inplace_dag_refuted :
+  iter_subtrees_dag 100 f31_heap 0 = Some [1; 2; 0] /\
+  final_value (transform_ip_dag (sym_DT f31_rules f31_toks) true 100 f31_heap 0)
+    = Some (VTree "start" [VUser "a" [VUser "b" [VTok "A" "1"]]; VUser "b" [VUser "A" [VTok "A" "1"]]]) /\
+  final_value (ipr_val (sym_DT f31_rules f31_toks) true 100 f31_heap (XRef 0))
+    = Some (VTree "start" [VUser "a" [VUser "b" [VUser "A" [VTok "A" "1"]]]; VUser "b" [VUser "A" [VTok "A" "1"]]]) /\
+  final_value (ipr_val (sym_DT f31_rules f31_toks) true 100 f31_heap (XRef 0))
+    = Some (tr (sym_T f31_rules f31_toks) true f31_tree).
+Proof. exact inplace_dag_refuted. Qed.
+Print Assumptions C16_inplace_dag_refuted.
+
+(* NOT PROVED (kept as a full statement, round 12): on tree-shaped heaps (an stree laid out by InPlaceDag.alloc: no
+   object is referenced twice) the heap-level Transformer_InPlace is the tree-level model of Shape/Transform.v, for
+   transformers that commute with the embedding of values.  Validated on every run by the stream dag-coq (tree-shaped
+   heaps: lark's value = Coq heap model = documented value); the missing piece is the invariant of the reversed
+   breadth-first order of iter_q on alloc-heaps (every object once, children before parents), which
+   Shape/InPlace_proofs.v proves for the path-keyed model. *)
+Definition C16_inplace_tree_inputs_agree_full_statement : Prop :=
+  forall (T : transformer) (DT : dtransformer) (vt : bool) (n : string) (ch : list stree),
+    (forall name vs, match on_rule T name, d_rule DT name with
+                     | Some f, Some g => g (map vinj vs) = vinj (f vs)
+                     | None, None => True
+                     | _, _ => False
+                     end) ->
+    (forall ty, match on_token T ty, d_tok DT ty with
+                | Some f, Some g => forall a b, g a b = vinj (f a b)
+                | None, None => True
+                | _, _ => False
+                end) ->
+    exists H', transform_ip_dag DT vt (S (tcount (Tr n ch))) (alloc 0 (Tr n ch)) 0
+               = Some (H', vinj (tr T vt (Tr n ch))).
